@@ -6,6 +6,10 @@ Every function catches exceptions raised by pyTRS and reports them as
 {"exc": "<class name>", ...}: an exception is an observation, not a harness
 failure."""
 import re
+import warnings
+
+# (the library *warns* about a maximum depth below the minimum depth; a warning is not part of any observation)
+warnings.filterwarnings("ignore", category=UserWarning)
 
 
 def _exc(e):
@@ -85,6 +89,14 @@ def c02(case):
             if len(d.tracts) != 1:
                 return {"exc": "none", "qqs": None, "note": "plss wrapper gave %d tracts" % len(d.tracts)}
             qqs = d.tracts[0].qqs
+        elif ch == "function":
+            # the function the parser itself calls for every aliquot of a description (its result list is handed to the
+            # caller, see the end of this function)
+            from pytrs.parser.tract.aliquot_parse import parse_aliquot
+            if qd is not None:
+                qqs = parse_aliquot(text, qd, qd, qd, bh)
+            else:
+                qqs = parse_aliquot(text, dmin, dmax or None, None, bh)
         elif ch == "kw":
             t = pytrs.Tract(text)
             kw = {"break_halves": bh}
@@ -112,7 +124,15 @@ def c02(case):
     for q in qqs:
         tk = tokenize_piece(q) if isinstance(q, str) else None
         pieces.append(tk if tk is not None else ["?" + str(q)[:20]])
-    return {"exc": "none", "qqs": list(qqs), "pieces": pieces}
+    out = {"exc": "none", "qqs": list(qqs), "pieces": pieces}
+    # the returned list is the caller's: callers extend, sort and empty it.  Whatever they do to it must not reach
+    # any later parse (the next cases of this worker process parse the same chains again)
+    try:
+        del qqs[:1]
+        qqs.extend(["SWSW", "XX"])
+    except Exception:  # noqa
+        pass
+    return out
 
 
 # ---------------------------------------------------------------------------
@@ -161,7 +181,17 @@ def c05(case):
             lots = [_lot_int(x) for x in t.lots]
             ilots = [x if isinstance(x, int) else -1 for x in t.ilots]
             nonseq = any(f == "nonsequential_lots" for f in t.w_flags)
-            return {"exc": "none", "obs": [lots, ilots], "nonseq": nonseq, "shared": True, "raw": list(t.lots)}
+            obs = [lots, ilots]
+            # the same list as the description of several sections (every tract of the block gets it, and reads it for
+            # itself), and in a second tract of its own: every reading expands it, every reading warns
+            d = pytrs.PLSSDesc("T154N-R97W Sec 14 - 15: " + text, parse_qq=True)
+            readers = list(d.tracts) + [pytrs.Tract(text, parse_qq=True)]
+            for t2 in readers:
+                obs.append([_lot_int(x) for x in t2.lots])
+                nonseq = nonseq and any(f == "nonsequential_lots" for f in t2.w_flags)
+            if len(d.tracts) != 2:
+                obs.append([-2])
+            return {"exc": "none", "obs": obs, "nonseq": nonseq, "shared": True, "raw": list(t.lots)}
     except Exception as e:  # noqa
         return _exc(e)
     raise ValueError(flavour)
@@ -189,17 +219,35 @@ def trs_attrs_from_obj(o):
     # the documented aliases .ns / .ew must say what .twp_ns / .rge_ew say ("?" makes the record fail otherwise)
     ns = o.twp_ns if getattr(o, "ns", o.twp_ns) == o.twp_ns else "?"
     ew = o.rge_ew if getattr(o, "ew", o.rge_ew) == o.rge_ew else "?"
-    return {"twp": _tr_attr(o.twp_num, ns, o.twp_undef, o.twp),
-            "rge": _tr_attr(o.rge_num, ew, o.rge_undef, o.rge),
-            "sec": _tr_attr(o.sec_num, None, o.sec_undef, o.sec),
-            "twprge": _chars(o.twprge)}
+    out = {"twp": _tr_attr(o.twp_num, ns, o.twp_undef, o.twp),
+           "rge": _tr_attr(o.rge_num, ew, o.rge_undef, o.rge),
+           "sec": _tr_attr(o.sec_num, None, o.sec_undef, o.sec),
+           "twprge": _chars(o.twprge)}
+    # what the reporting methods say, component by component and for the whole (is_error / is_undef of a TRS,
+    # trs_is_error / trs_is_undef of a Tract)
+    ie = getattr(o, "is_error", None) or getattr(o, "trs_is_error", None)
+    iu = getattr(o, "is_undef", None) or getattr(o, "trs_is_undef", None)
+    if callable(ie) and callable(iu):
+        sel = [dict(twp=True, rge=False, sec=False), dict(twp=False, rge=True, sec=False), dict(twp=False, rge=False, sec=True)]
+        out["rep_err"] = [bool(ie(**k)) for k in sel] + [bool(ie())]
+        out["rep_undef"] = [bool(iu(**k)) for k in sel] + [bool(iu())]
+    else:
+        out.update(_derived_reports(out))
+    return out
+
+
+def _derived_reports(a):
+    ks = [a["twp"]["k"], a["rge"]["k"], a["sec"]["k"]]
+    return {"rep_err": [k == "err" for k in ks] + [("err" in ks)], "rep_undef": [k == "undef" for k in ks] + [("undef" in ks)]}
 
 
 def trs_attrs_from_dict(d):
-    return {"twp": _tr_attr(d["twp_num"], d["twp_ns"], d["twp_undef"], d["twp"]),
-            "rge": _tr_attr(d["rge_num"], d["rge_ew"], d["rge_undef"], d["rge"]),
-            "sec": _tr_attr(d["sec_num"], None, d["sec_undef"], d["sec"]),
-            "twprge": _chars(str(d["twp"]) + str(d["rge"]))}
+    out = {"twp": _tr_attr(d["twp_num"], d["twp_ns"], d["twp_undef"], d["twp"]),
+           "rge": _tr_attr(d["rge_num"], d["rge_ew"], d["rge_undef"], d["rge"]),
+           "sec": _tr_attr(d["sec_num"], None, d["sec_undef"], d["sec"]),
+           "twprge": _chars(str(d["twp"]) + str(d["rge"]))}
+    out.update(_derived_reports(out))       # (a dict has no reporting methods)
+    return out
 
 
 def c12(case):
@@ -786,6 +834,14 @@ def _c13_run(scn, table):
             ic = ",".join(x for x in (base_cfg, cfgtext_ch("init_config")) if x) or None
             if s == "wait_to_parse":
                 d = pytrs.PLSSDesc(text, config=ic, **init_kw)
+            elif scn.get("bulk"):
+                # the later config text and the keyword handed to ONE call of the bulk entry point, which re-configures
+                # and re-parses the tracts that exist ("the keyword parameters here will take priority over config")
+                d = pytrs.PLSSDesc(text, config=ic, **init_kw)
+                target_ = d if scn["bulk"] == "plss" else d.tracts
+                target_.parse_tracts(config=cfgtext_ch("assign_config"), **parse_kw)
+                if scn.get("again"):
+                    target_.parse_tracts()
             else:
                 d = pytrs.PLSSDesc(text, config=ic, wait_to_parse=True, **init_kw)
                 if cfgtext_ch("assign_config") is not None:
@@ -855,11 +911,20 @@ def snap_tract(t):
     return (t.trs, t.desc, t.pp_desc, tuple(t.lots), tuple(t.qqs), tuple(t.lots_qqs), tuple(t.ilots),
             tuple(sorted(t.lot_acres.items())), tuple(t.aliquots_whole), _bag(t.w_flags), _bag(t.w_flag_lines),
             _bag(t.e_flags), _bag(t.e_flag_lines), t.parse_complete, t.orig_index, t.orig_desc, t.source,
-            tuple(getattr(t, a, None) for a in _TRACT_SETTING_ATTRS))
+            tuple(getattr(t, a, None) for a in _TRACT_SETTING_ATTRS), _cfg_text(t))
+
+
+def _cfg_text(o):
+    """the object's .config, as the text it stands for"""
+    c = getattr(o, "config", None)
+    try:
+        return c if isinstance(c, str) or c is None else c.decompile_to_text()
+    except Exception as e:  # noqa
+        return "?" + type(e).__name__
 
 
 def snap_plss(d):
-    return (d.orig_desc, d.pp_desc, d.layout, d.current_layout, d.source,
+    return (d.orig_desc, d.pp_desc, d.layout, d.current_layout, d.source, _cfg_text(d),
             tuple(getattr(d, a, None) for a in _SETTING_ATTRS), _bag(d.w_flags), _bag(d.w_flag_lines), _bag(d.e_flags),
             _bag(d.e_flag_lines), d.desc_is_flawed, tuple(snap_tract(t) for t in d.tracts))
 
@@ -971,9 +1036,13 @@ _C15_CFG = [None]
 C15_HELD_TEXT = "T154-R97W Sec 14: NE/4, Lots 1 - 3"
 
 
+_C15_HELD_T = [None]
+
+
 def c15_reset():
     import pytrs
     _C15_HELD[0] = None
+    _C15_HELD_T[0] = None
     _C15_CFG[0] = pytrs.Config("clean_qq")       # the caller's settings object, reused for the whole history
     pytrs.MasterConfig.default_ns = "n"
     pytrs.MasterConfig.default_ew = "w"
@@ -1016,6 +1085,11 @@ def c15_probe(p):
         d = pytrs.PLSSDesc("T154-R97 Sec 14: NE, Lots 1 - 3", config=_C15_CFG[0], parse_qq=True)
         t = pytrs.Tract.from_twprgesec("N/2", 154, 97, 14, config=_C15_CFG[0])
         return (snap_plss(d), snap_tract(t), str(_C15_CFG[0]))
+    if p == "held_tract":
+        if _C15_HELD_T[0] is None:
+            _C15_HELD_T[0] = pytrs.Tract(C14_TRACT_TEXT, "154n97w14")
+        _C15_HELD_T[0].parse()
+        return snap_tract(_C15_HELD_T[0])
     if p == "held_parse":
         if _C15_HELD[0] is None:
             _C15_HELD[0] = pytrs.PLSSDesc(C15_HELD_TEXT, wait_to_parse=True, parse_qq=True)
@@ -1108,6 +1182,17 @@ def c15_do(op):
     elif name == "use_cfg":
         pytrs.Tract.from_twprgesec("NE/4", 154, 97, 14, default_ns=a, default_ew=b, config=_C15_CFG[0], parse_qq=True)
         pytrs.TRS.from_twprgesec(154, 97, 14, default_ns=a, default_ew=b)
+    elif name == "dry_run":
+        # previews: parse(commit=False) under other settings on the tract the caller keeps (created now if there is none)
+        # and on the tracts of the kept description
+        if _C15_HELD_T[0] is None:
+            _C15_HELD_T[0] = pytrs.Tract(C14_TRACT_TEXT, "154n97w14")
+        _C15_HELD_T[0].parse(commit=False, clean_qq=True, qq_depth=1)
+        _C15_HELD_T[0].parse(commit=False)
+        if _C15_HELD[0] is not None:
+            _C15_HELD[0].parse(commit=False, clean_qq=True, qq_depth=1, parse_qq=True)
+            for t_ in _C15_HELD[0].tracts:
+                t_.parse(commit=False, qq_depth=1)
     elif name == "hold":
         _C15_HELD[0] = pytrs.PLSSDesc(C15_HELD_TEXT, wait_to_parse=True, parse_qq=True)
     elif name == "probe":
@@ -1432,6 +1517,9 @@ def c18_sm(case):
                     raise AssertionError("+= returned another object")
             elif n == "add":
                 Y = X + iterable(op)
+            elif n == "radd":
+                left = [elem(k, op) for k in op["it"]]
+                Y = (tuple(left) if op.get("form") == "tuple" else left) + X
             elif n == "extend_str":
                 X.extend("154n97w14")
             elif n == "extend_self":
@@ -1467,7 +1555,7 @@ def c18_sm(case):
                 Y = X.filter(lambda e_: ids([e_]) == [1], drop=(n == "filter_drop"))
             else:
                 raise ValueError(n)
-            if Y is not None and tgt == "x" and n in ("add", "mul", "copy", "filter_keep", "filter_drop") and type(Y) is not cls:
+            if Y is not None and tgt == "x" and n in ("add", "radd", "mul", "copy", "filter_keep", "filter_drop") and type(Y) is not cls:
                 ev["ret"] = [97]
         except Exception as e:  # noqa
             ev["exc"] = type(e).__name__
@@ -1683,7 +1771,7 @@ def c19_records(case):
         order = keys = values = unknown = True
         for t, r in zip(d.tracts, recs):
             if "dict" in form:
-                if list(r.keys()) != attrs:
+                if list(r.keys()) != list(dict.fromkeys(attrs)):        # (a name asked for twice is one key)
                     keys = False
                 vals = [r.get(x) for x in attrs]
             else:
@@ -1721,6 +1809,14 @@ def _c06_obs(text, suppress, table, seq=False, cfgx=None):
         # keyword of TractList.parse_tracts() (an explicit True / False) takes priority
         t = pytrs.Tract(text, config="suppress_lot_divs.%s" % (not suppress))
         pytrs.TractList([t]).parse_tracts(suppress_lot_divs=suppress)
+    elif seq == "thrice":
+        # two committed parses under other settings (lot divisions the other way round, quarters only - settings under
+        # which other things repeat), then the settings are put right and the observed parse is the third
+        t = pytrs.Tract(text, parse_qq=True, config="suppress_lot_divs.%s,qq_depth.1" % (not suppress))
+        t.parse()
+        t.qq_depth = None
+        t.suppress_lot_divs = suppress
+        t.parse()
     elif seq:
         # the same final settings reached through a history: committed parse under the opposite setting, an
         # uncommitted parse under other settings, then the committed parse that is observed
@@ -1815,6 +1911,13 @@ def c07(case):
             if [(t_.pp_desc, tuple(t_.qqs), tuple(t_.lots)) for t_ in dp.tracts] != \
                     [(t_.pp_desc, tuple(t_.qqs), tuple(t_.lots)) for t_ in dq.tracts]:
                 same = False
+            # ... and as the division of a lot ('<chain> of Lot 1', '<chain> of Lots 2 - 3'): identical lots
+            for tail in (" of Lot 1", " of Lots 2 - 3"):
+                for cfg in (None, "suppress_lot_divs"):
+                    _, ra = _c07_res(text + tail, clean, cfg)
+                    _, rb = _c07_res(canon + tail, clean, cfg)
+                    if ra != rb:
+                        same = False
         toks, pos = [], 0
         for m in _PP_TOK.finditer(pp):
             if pp[pos:m.start()].strip():
@@ -2030,8 +2133,16 @@ def c08_doc(case):
             m = _TR_SHORT.fullmatch(t.twprge)
             trs.append(_tr_tuple(m) if m else [0, "?", 0, "?"])
         again = pytrs.PLSSDesc(pp, config="%s,%s" % (dns, dew)).pp_desc == pp
-        return {"exc": "none", "obs": pp_lex(pp, a["fills"]), "found": fnd, "tracts": trs, "leftover": bool(leftovers),
-                "again": again, "pp_text": pp[:300]}
+        out = {"exc": "none", "obs": pp_lex(pp, a["fills"]), "found": fnd, "tracts": trs, "leftover": bool(leftovers),
+               "again": again, "pp_text": pp[:300]}
+        if a.get("written_out") is not None:
+            # "... giving the same tracts as if it had been written out"
+            w = pytrs.PLSSDesc(a["written_out"], config="%s,%s" % (dns, dew))
+            got, want = [(t.trs, t.desc) for t in d.tracts], [(t.trs, t.desc) for t in w.tracts]
+            out["as_written_out"] = got == want
+            if got != want:
+                out["written_out_diff"] = {"text": got[:4], "written_out": want[:4]}
+        return out
     except Exception as e:  # noqa
         return _exc(e)
 
